@@ -95,6 +95,10 @@ impl FileSystem for OverlayFS {
                 }
             }
         }
+        if path.is_empty() {
+            // the marker directory lives in the upper layer's root, but is not an entry
+            entries.remove(".whiteout");
+        }
         // remove whiteout entries that have been removed
         let whiteout_path = self.write_layer().join(format!(".whiteout{}", path))?;
         if whiteout_path.exists()? {
